@@ -190,7 +190,17 @@ def wrapped_oracle(rng, n):
             wrap = "DV"                      # TopoART needs a base module with a beta parameter
         wp = {"lb": float(p["rho"]) * rng.choice([0.0, 0.25, 0.5, 0.75]), "beta_lower": float(p.get("beta", 1.0)) * rng.choice([0.5, 1.0]),
               "tau": rng.choice([3, 5, 50]), "phi": rng.choice([1, 2])}
-        X = K.gen_data(rng, kind, rng.randrange(3, 16), d)
+        nrows = rng.randrange(3, 16)
+        X = K.gen_data(rng, kind, nrows, d)
+        if rng.random() < 0.45:
+            # DualVigilanceART over Fuzzy ART on continuous data with many small categories and a lower threshold anywhere
+            # below rho: searches in which one category fails both thresholds and a later one passes only the lower one
+            kind, wrap = "Fuzzy", "DV"
+            d = rng.choice([1, 2, 3])
+            p = {"rho": rng.uniform(0.3, 0.95), "alpha": rng.choice([0.0, 1e-3, 0.5]), "beta": rng.choice([1.0, 1.0, 0.5])}
+            wp["lb"] = rng.uniform(0.0, p["rho"] * 0.99)
+            raw = np.array([[rng.random() for _ in range(d)] for _ in range(rng.randrange(5, 60))])
+            X = np.hstack([raw, 1.0 - raw])
         cnt += 1
         for sig, text, i in check_wrapped_stream(kind, p, X, wrap, wp):
             fails.append({"signature": sig, "text": text,
@@ -259,7 +269,7 @@ def main():
             v.known(f["signature"], kf.get("text", f["signature"]))
         else:
             v.violation(dict(f["replay"], property="C02", signature=f["signature"], what=f["text"]))
-    wf, wn = wrapped_oracle(C.make_rng(seed, "C02-wrapped"), 200 if tier == "quick" else 2000)
+    wf, wn = wrapped_oracle(C.make_rng(seed, "C02-wrapped"), 400 if tier == "quick" else 4000)
     for f in wf:
         kf = C.match_known("C02", f["signature"])
         if kf is not None:
